@@ -48,6 +48,16 @@ def build_inputs(rng, tmp):
                                             [("s%d" % i, r) for i, r in enumerate(rows[20:], 20)], "plain"))
     gff = W("anno.gff", anno.render_gff(genome, feats))
     gb = W("anno.gb", anno.render_genbank(genome, [f for f in feats]))
+    # several named features with different IDs starting at one position (as ORF1ab, ORF1a and nsp1 all start at 266): their
+    # relative order in the output must not depend on a map's iteration order; divergent queries change the shared codons
+    third = 8
+    g5 = gen.rand_seq(rng, 6 * third + 6)
+    f5 = [anno.Feature("poly", "+", [(4, 3 + 3 * third), (4 + 3 * third, 3 + 6 * third)], 1, True), anno.Feature("pepA", "+", [(4, 3 + 3 * third)], 1, True),
+          anno.Feature("pepB", "+", [(4, 3 + 3 * (third // 2))], 1, True), anno.Feature("pepC", "+", [(4, 3 + 3 * 2)], 1, True)]
+    g5, f5 = anno.patch_stops(rng, g5, f5)
+    gff5 = W("anno_same_start.gff", anno.render_gff(g5, f5))
+    rows5 = [gen.mutate(rng, g5, p_sub=0.3, p_amb=0.0, p_gap=0.0, p_lower=0.0) for _ in range(12)]
+    msa5 = W("msa_same_start.fasta", gen.layout(rng, [("REF", g5)] + [("s%d" % i, r) for i, r in enumerate(rows5)], "plain"))
     ref = W("ref.fasta", gen.layout(rng, [("REF", genome)], "plain"))
     aln = W("aln.fasta", gen.layout(rng, [("s%d" % i, gen.mutate(rng, genome, p_sub=0.08, p_amb=0.04, p_gap=0.03)) for i in range(nrec)], "plain"))
     srecs = []
@@ -66,7 +76,7 @@ def build_inputs(rng, tmp):
     udref = W("udref.fasta", gen.layout(rng, [("ref", r2)], "plain"))
     udq = W("udq.fasta", gen.layout(rng, qs, "plain"))
     udt = W("udt.fasta", gen.layout(rng, ts, "plain"))
-    return dict(udref3=udref3, udq3=udq3, udt3=udt3, msa=msa, msa2=msa2, msa3=msa3, gff=gff, gb=gb, ref=ref, aln=aln, sam=sam, udref=udref, udq=udq, udt=udt, tmp=tmp)
+    return dict(gff5=gff5, msa5=msa5, udref3=udref3, udq3=udq3, udt3=udt3, msa=msa, msa2=msa2, msa3=msa3, gff=gff, gb=gb, ref=ref, aln=aln, sam=sam, udref=udref, udq=udq, udt=udt, tmp=tmp)
 
 
 def commands(F, binp):
@@ -81,6 +91,7 @@ def commands(F, binp):
         "variants gb": ["variants", "--msa", F["msa"], "-r", "REF", "-a", F["gb"], "-t", T],
         "variants ref-near-end": ["variants", "--msa", F["msa2"], "-r", "REF", "-a", F["gff"], "-t", T, "--append-snps"],
         "variants ref-middle": ["variants", "--msa", F["msa3"], "-r", "REF", "-a", F["gff"], "-t", T],
+        "variants, features sharing a start": ["variants", "--msa", F["msa5"], "-r", "REF", "-a", F["gff5"], "-t", T],
         "variants --aggregate": ["variants", "--msa", F["msa"], "-r", "REF", "-a", F["gff"], "-t", T, "--aggregate"],
         "snps": ["snps", "-r", F["ref"], "-q", F["aln"]],
         "snps --aggregate": ["snps", "-r", F["ref"], "-q", F["aln"], "--aggregate"],
